@@ -84,32 +84,41 @@ def Seg.endsBs : Seg → Bool
   | .esc _ => true
   | _ => false
 
-/-- Try the alternation at the head of `s`; `prevBs` = the character before `s` is a backslash
-(look-behind of branch 2).  Returns the match and the text after it. -/
-def matchAt (prevBs : Bool) (s : List Char) : Option (Seg × List Char) :=
+/-- `[-a-zA-Z0-9_]+` followed by the literal `close` : (name, text after `close`) -/
+def nameThen (close : List Char) (r : List Char) : Option (Name × List Char) :=
+  let nm := r.takeWhile isNameChar
+  let after := r.dropWhile isNameChar
+  if nm.isEmpty then none
+  else if close.isPrefixOf after then some (nm, after.drop close.length) else none
+
+/-- branch 1 : `(?:\\\\)+(?=\\?@)` — with `k` backslashes at the head, the greedy `+` takes `k/2` pairs; the
+look-ahead (optional backslash, then `@`) holds for that choice iff the run is followed by `@`, and
+for no shorter choice otherwise -/
+def matchEsc (s : List Char) : Option (Seg × List Char) :=
+  let k := (s.takeWhile isBs).length
+  if 2 ≤ k && (s.dropWhile isBs).head? == some '@' then some (.esc (k / 2), s.drop (2 * (k / 2))) else none
+
+/-- branch 2 : `(?<!\\)@(?P<variable>[-a-zA-Z0-9_]+)@` -/
+def matchVar (prevBs : Bool) (s : List Char) : Option (Seg × List Char) :=
   match s with
-  | '\\' :: t =>
-    let k := (s.takeWhile isBs).length
-    if 2 ≤ k then
-      -- branch 1: (?:\\\\)+(?=\\?@) : greedy pairs, then optional backslash, then '@'
-      match s.dropWhile isBs with
-      | '@' :: _ => some (.esc (k / 2), s.drop (2 * (k / 2)))
-      | _ => none
-    else
-      -- branch 3: \\@name\\@
-      match t with
-      | '@' :: r =>
-        match r.takeWhile isNameChar, r.dropWhile isNameChar with
-        | c :: nm, '\\' :: '@' :: r' => some (.escaped (c :: nm), r')
-        | _, _ => none
-      | _ => none
-  | '@' :: r =>
-    -- branch 2: (?<!\\)@name@
-    if prevBs then none else
-      match r.takeWhile isNameChar, r.dropWhile isNameChar with
-      | c :: nm, '@' :: r' => some (.var (c :: nm), r')
-      | _, _ => none
+  | '@' :: r => if prevBs then none else (nameThen ['@'] r).map fun (nm, r') => (.var nm, r')
   | _ => none
+
+/-- branch 3 : `(?P<escaped>\\@[-a-zA-Z0-9_]+\\@)` -/
+def matchEscaped (s : List Char) : Option (Seg × List Char) :=
+  match s with
+  | '\\' :: '@' :: r => (nameThen ['\\', '@'] r).map fun (nm, r') => (.escaped nm, r')
+  | _ => none
+
+/-- Try the alternation (in order) at the head of `s`; `prevBs` = the character before `s` is a
+backslash (look-behind of branch 2).  Returns the match and the text after it. -/
+def matchAt (prevBs : Bool) (s : List Char) : Option (Seg × List Char) :=
+  match matchEsc s with
+  | some x => some x
+  | none =>
+    match matchVar prevBs s with
+    | some x => some x
+    | none => matchEscaped s
 
 /-- leftmost, non-overlapping matches: the loop of `re.sub` (fuel = length of the text suffices) -/
 def scan : Nat → Bool → List Char → List Seg
@@ -167,6 +176,7 @@ def sMesondefine : List Char := "#mesondefine".toList
 def sCmakedefine : List Char := "cmakedefine".toList
 def sCmakedefine01 : List Char := "cmakedefine01".toList
 def sDefine : List Char := "#define ".toList
+def sUndef : List Char := "#undef ".toList
 def sUndefOpen : List Char := "/* #undef ".toList
 def sUndefClose : List Char := " */\n".toList
 
@@ -185,7 +195,7 @@ def defineMeson (d : Data) (line : List Char) : Except Err (List Char) :=
     | none => .ok (sUndefOpen ++ nm ++ sUndefClose)
     | some (.str v) => .ok (substMeson d (strip (sDefine ++ nm ++ ' ' :: v) ++ ['\n']))
     | some (.bool true) => .ok (sDefine ++ nm ++ ['\n'])
-    | some (.bool false) => .ok ("#undef ".toList ++ nm ++ ['\n'])
+    | some (.bool false) => .ok (sUndef ++ nm ++ ['\n'])
     | some (.int i) => .ok (sDefine ++ nm ++ ' ' :: (toString i).toList ++ ['\n'])
   | _ => .error .defineTokens
 
